@@ -109,6 +109,14 @@ def run_profnorm(ctx, kinds=None, depth=None):
         cfg = core.make_cfg(ctx, 'GEN_ProfileNorm.cfg', name=f'GEN_ProfileNorm_{kind}.cfg', Arrays=arrs, ZeroMethods=zero, MaxDepth=depth)
         g = ctx.tlc('ProfileNorm', cfg, part=f'GEN:ProfileNorm/{kind}', workers=1)
         jobs += [(kind, rec['v']) for rec in g.records if rec.get('_tag') == 'GEN']
+    # binding self-test: a history whose recorded normalisation state lost its last factor must be reported by the replay
+    pj = next((j for j in jobs if any(len(s['norm']) >= 1 for s in j[1])), None)
+    if pj is not None:
+        hb = core.jcopy(pj[1])
+        for st in hb:
+            if st['norm']:
+                st['norm'] = st['norm'][:-1]
+        ctx.selftest('recorded normalisation factors dropped', any(v[0] in ('array_at_current_scale', 'unnormalize_restores_raw', 'normalization_value') for v in replay((pj[0], hb))))
     for vs in core.pmap(replay, jobs, chunksize=32):
         for v in vs:
             ctx.violation(*v)
